@@ -72,6 +72,8 @@ def run(ck):
             mat = None
         elif tk == 'diag':
             mat = np.abs(rng.standard_normal(d)) + 0.2
+            if d >= 2 and (i // 3) % 2 == 1:
+                mat[(i // 6) % d] = 0.0          # a feature whose learned weight is exactly 0 (a constant column): it still counts in the sum-power kernel's mean
         else:
             A = rng.standard_normal((d, d)); mat = A @ A.T / d + 0.1 * np.eye(d)      # symmetric PSD
         T = lambda a: torch.tensor(a, dtype=torch.float64)
@@ -128,7 +130,8 @@ def run(ck):
                                      dict(desc, X=X.tolist(), Z=Z.tolist(), coefs=coefs.tolist(), mat=None if mat is None else np.asarray(mat).tolist(),
                                           got=float(got), want=float(want)), key=json.dumps(dict(site='entry', kernel=kn, multi=(f > 1), coincide=skip_self)))
         # interval-certified entries for the closed-form gradients
-        if kn in ('l2', 'l2_light') and not coincide and d <= 2:
+        zero_diag = (tk == 'diag' and bool(np.any(np.asarray(mat) == 0)))          # `interval` cannot certify |0|^q terms: these entries are checked against mpmath only
+        if kn in ('l2', 'l2_light') and not coincide and d <= 2 and not zero_diag:
             l, j, dc = f - 1, nz - 1, d - 1
             fn = 'grad_l2' if kn == 'l2' else 'grad_light'
             term = (f'nth {dc} ({fn} {kreal.tmat(mat)} {coq_R(L)} {coq_R(q)} {coq_R(kobj.eps)} {kreal.rmat(X)} {kreal.rvec(coefs[l])} {kreal.rvec(Z[j])}) 0')
@@ -138,7 +141,7 @@ def run(ck):
             lmeta[lid] = dict(desc, l=l, j=j, dc=dc)
         # autodiff kernels: the entry vs the Coq model of what jacrev + the wrapper return (GradAuto.grad_product / grad_lpq / grad_sum_power, proved to be
         # the derivative of the documented predictor); generic position, identity / diagonal transforms (a full matrix makes the unshared term too large for `interval`)
-        if kn in ('l1', 'lpq', 'sum_power') and not coincide and d <= 2 and tk != 'full' and nx <= 3 \
+        if kn in ('l1', 'lpq', 'sum_power') and not coincide and d <= 2 and tk != 'full' and nx <= 3 and not zero_diag \
                 and not any(abs(X[a][k] - Z[j2][k]) < 1e-6 for a in range(nx) for j2 in range(nz) for k in range(d)):
             l, j, dc = f - 1, nz - 1, d - 1
             tm = kreal.tmat(mat)
